@@ -311,9 +311,12 @@ pub fn tie_pair_ops(n: u32, es: u32, op_lo: u8, op_hi: u8) -> BoxedStrategy<(u8,
         }
         let (a, b) = out.unwrap_or(fallback);
         // delta: nudge b by one ulp to land just above / just below the threshold
+        // (by 2^j encodings, j drawn: the sticky information then sits at a drawn depth)
+        let j = ((raw >> 48) % (n as u64 - 3).max(1)) as u32;
+        let step = if raw >> 47 & 1 == 0 { 1u64 } else { 1u64 << j };
         let b = match delta {
-            1 => b.wrapping_add(1) & m,
-            2 => b.wrapping_sub(1) & m,
+            1 => b.wrapping_add(step) & m,
+            2 => b.wrapping_sub(step) & m,
             _ => b,
         };
         (op, a, b)
@@ -345,6 +348,175 @@ pub fn tie_triple(n: u32, es: u32) -> BoxedStrategy<(u64, u64, u64)> {
         fb
     })
     .boxed()
+}
+
+/// near-tie triple for fused ops: c dominant and close to a threshold v, a*b ~ v - c but not exactly,
+/// so that a*b + c = v + r with a residual r far below the result's ulp (sticky-bit territory).
+pub fn near_tie_triple(n: u32, es: u32) -> BoxedStrategy<(u64, u64, u64)> {
+    (bits(n + 1), any::<u64>(), bits(n), triple(n, es)).prop_map(move |(vb, raw, abits, fb)| {
+        let vb = (vb | 1) & mask(n + 1);
+        let v = match decode(n + 1, es, vb) {
+            Some(v) if !v.is_zero() => v,
+            _ => return fb,
+        };
+        let sv = scale_of(n + 1, es, vb).unwrap_or(0);
+        let ms = max_scale(n, es);
+        // c: same sign as v, scale sv - d, structured fraction
+        let d = (raw % 3) as i32;
+        let frac = match (raw >> 4) % 4 {
+            0 => 0,
+            1 => !0u64,
+            2 => raw.rotate_left(17),
+            _ => frac_of(n + 1, es, vb).wrapping_sub((raw >> 8) % 8 << 40),
+        };
+        let c = make(n, es, v.neg, (sv - d).clamp(-ms, ms), frac);
+        let dc = match decode(n, es, c) {
+            Some(x) => x,
+            None => return fb,
+        };
+        let ptop = v.sub(&dc);
+        if ptop.is_zero() {
+            return fb;
+        }
+        let a = if abits == 0 || abits == nar(n) { 1u64 << (n - 2) } else { abits };
+        let da = decode(n, es, a).unwrap();
+        let b = round_posit(n, es, &crate::refmodel::Quot(ptop, da));
+        (a, b, c)
+    })
+    .boxed()
+}
+
+fn inv_mod_pow2(a: u64, k: u32) -> u64 {
+    // a odd; Newton iteration doubles the number of correct low bits
+    let mut x = a;
+    for _ in 0..6 {
+        x = x.wrapping_mul(2u64.wrapping_sub(a.wrapping_mul(x)));
+    }
+    if k >= 64 { x } else { x & ((1u64 << k) - 1) }
+}
+
+/// fraction bits available at power-of-two scale s in an n-bit posit
+pub fn frac_bits_at(n: u32, es: u32, s: i32) -> i32 {
+    let k = s >> es;
+    let rl = if k >= 0 { k + 2 } else { -k + 1 };
+    (n as i32 - 1 - rl - es as i32).max(0)
+}
+
+/// "tie plus one distant bit": a*b has a single set bit far below an otherwise exactly cancelling
+/// part, so that a*b + c = v +- 2^t with v a rounding threshold of the result and t a drawn depth
+/// below it (the only sticky information is one bit at that depth).  Built with a modular inverse:
+/// A*B = 1 (mod 2^k).
+pub fn sparse_tie_triple(n: u32, es: u32) -> BoxedStrategy<(u64, u64, u64)> {
+    let table = deep_pairs(n, es);
+    (any::<u64>(), any::<u64>(), any::<u64>(), triple(n, es)).prop_map(move |(r1, r2, r3, fb)| {
+        let ms = max_scale(n, es);
+        // result binade S (moderate scales so that operands have fraction bits), fraction bits f
+        let span = (ms / 2).max(2);
+        let s_res = (r1 % (2 * span as u64 + 1)) as i32 - span;
+        let f = frac_bits_at(n, es, s_res);
+        if f < 2 || frac_bits_at(n, es, s_res - 1) < f {
+            return fb;
+        }
+        let fa_max = (n as i32 - 3 - es as i32).max(2) as u32; // widest significand available
+        let (a_sig, b_sig, k, wa) = if r1 >> 60 < 6 && !table.is_empty() {
+            // deep pair from the precomputed table: A*B = 1 + M*2^k with k beyond the width of B
+            let (a, b, k) = table[((r2 >> 8) % table.len() as u64) as usize];
+            (a, b, k, 64 - a.leading_zeros())
+        } else {
+            let wa = 2 + (r1 >> 8) as u32 % (fa_max - 1);
+            let wb = 2 + (r1 >> 16) as u32 % (fa_max - 1);
+            let a_sig = ((r2 & ((1u64 << wa) - 1)) | 1) | (1u64 << (wa - 1));
+            let k = (2 + (r1 >> 24) as u32 % (wb - 1).max(1)).min(wb);
+            let t = if wb > k { (r3 >> 8) & ((1u64 << (wb - k)) - 1) } else { 0 };
+            (a_sig, inv_mod_pow2(a_sig, k) | (t << k), k, wa)
+        };
+        if b_sig == 0 {
+            return fb;
+        }
+        let prod = (a_sig as u128) * (b_sig as u128); // = 1 + M * 2^k
+        let m_part = (prod - 1) >> k;
+        if m_part == 0 {
+            return fb;
+        }
+        let j = ((r1 >> 32) % 3) as i32;
+        // h = half ulp of the result binade = 2^(s_res - f - 1);  e = log2(h) - k + j
+        let log_h = s_res - f - 1;
+        let e = log_h - k as i32 + j;
+        // p_top = M * 2^(k+e) = M * h * 2^j ; v = 2^S + (2q+1) h with (2q+1) h < p_top
+        let mh = m_part << j; // p_top in units of h
+        if mh < 2 || mh >= (1u128 << (f + 1)) {
+            return fb;
+        }
+        let q = ((r3 >> 20) as u128) % (mh / 2).max(1);
+        let odd = 2 * q + 1;
+        if odd >= mh || odd >= (1u128 << (f + 1)) {
+            return fb;
+        }
+        let v = Dy::new(false, 1, s_res).add(&Dy::from_u128(false, odd, log_h));
+        let ptop = Dy::from_u128(false, mh, log_h);
+        let below = r3 & 1 != 0; // product negative: result v - 2^e (c = v + p_top)
+        let c = if below { v.add(&ptop) } else { v.sub(&ptop) };
+        let ea = ((r3 >> 40) % 9) as i32 - 4 - (wa as i32) / 2;
+        let eb = e - ea;
+        let (da, db) = (Dy::new(below, a_sig, ea), Dy::new(false, b_sig, eb));
+        match (representable(n, es, &da), representable(n, es, &db), representable(n, es, &c)) {
+            (Some(a), Some(b), Some(c)) => {
+                let m = mask(n);
+                if r3 & 2 != 0 {
+                    // mirror image
+                    (a.wrapping_neg() & m, b, c.wrapping_neg() & m)
+                } else {
+                    (a, b, c)
+                }
+            }
+            _ => fb,
+        }
+    })
+    .boxed()
+}
+
+/// pairs of odd significands (A, B, k), both at most w = n-3-es bits wide, with A*B = 1 (mod 2^k)
+/// for k larger than w: products whose lowest set bit is isolated deeper than either factor's width.
+/// Found by a bounded scan (deterministic); cached per format.
+pub fn deep_pairs(n: u32, es: u32) -> std::sync::Arc<Vec<(u64, u64, u32)>> {
+    use std::collections::HashMap;
+    use std::sync::{Arc, Mutex, OnceLock};
+    static CACHE: OnceLock<Mutex<HashMap<(u32, u32), Arc<Vec<(u64, u64, u32)>>>>> = OnceLock::new();
+    let cache = CACHE.get_or_init(|| Mutex::new(HashMap::new()));
+    if let Some(v) = cache.lock().unwrap().get(&(n, es)) {
+        return v.clone();
+    }
+    let w = (n as i32 - 3 - es as i32).max(2) as u32;
+    let mut out = vec![];
+    if w >= 4 && w <= 31 {
+        let lim = 1u64 << w;
+        let scan = (1u64 << 19).min(lim / 2);
+        for k in (w + 1)..=(2 * w - 2) {
+            let mut found = 0;
+            // A = odd numbers from the top of the range downwards and from 3 upwards, alternating
+            for i in 0..scan {
+                let a = if i & 1 == 0 { 3 + i } else { lim - i };
+                let a = a | 1;
+                if a >= lim {
+                    continue;
+                }
+                let b = inv_mod_pow2(a, k);
+                if b < lim && b > 1 {
+                    let m = ((a as u128 * b as u128) - 1) >> k;
+                    if m > 0 {
+                        out.push((a, b, k));
+                        found += 1;
+                        if found >= 64 {
+                            break;
+                        }
+                    }
+                }
+            }
+        }
+    }
+    let v = Arc::new(out);
+    cache.lock().unwrap().insert((n, es), v.clone());
+    v
 }
 
 // ---------------------------------------------------------------- floats and integers
